@@ -354,7 +354,10 @@ func runDumpReceiver(c *c13Case, cl *caller, fails *[]cq.ImplFailure) runOut {
 	for i := range c.Pkts {
 		before := ls.n()
 		_, _, _ = readCall(c, cl, rd, &pending, i, false, true, &out)
-		gate <- struct{}{}
+		select {
+		case gate <- struct{}{}:
+		default:
+		}
 		if !waitFor(ls.n, before+1, 2*time.Second) {
 			*fails = append(*fails, cq.ImplFailure{Kind: "no-dump", Detail: fmt.Sprintf("packet %d not dumped", i), Case: c})
 		}
@@ -615,7 +618,10 @@ func runDumpReceiverRtcp(c *c13Case, cl *caller, fails *[]cq.ImplFailure) runOut
 			cl.held = append(cl.held, held{idx: i, h: &rtp.Header{}, p: b[:len(raw)], wp: raw})
 		}
 		out.ops = append(out.ops, cl.scribbleRead(len(raw))...)
-		gate <- struct{}{}
+		select {
+		case gate <- struct{}{}:
+		default:
+		}
 		if !waitFor(ls.n, before+1, 2*time.Second) {
 			*fails = append(*fails, cq.ImplFailure{Kind: "no-dump", Detail: fmt.Sprintf("rtcp packet %d not dumped", i), Case: c})
 		}
